@@ -349,6 +349,17 @@ def adapter_selections(summ, pkg=None):
                 out.append({"event": c, "form": "next", "elem": ("elem", lid), "loop": lid, "conds": list(conds), "default_guard":
                             ("cmp", "isnot", f, ("const", None)) in conjuncts(c.live)})
             continue
+        # table form read with .get(key): None for a name that is not in the table -- the construction must be guarded against it
+        if f[0] == "call" and f[1][0] == "attr" and f[1][2] == "get" and len(f[2]) in (1, 2) and f[2][1:] in ((), (("const", None),)) and not f[3]:
+            d, key = f[1][1], f[2][0]
+            tabs = (table, ("call", ("builtin", "reversed"), (table,), ()), ("sub", table, ("slice", ("const", None), ("const", None), ("const", -1))))
+            if d[0] == "comp" and d[1] == "dict" and len(d[3]) == 1 and d[3][0][1] in tabs and not d[3][0][2]:
+                e = ("elem", d[3][0][0])
+                kv = d[2]
+                if kv[0] == "kv" and kv[2] == ("sub", e, ("const", 2)) and kv[1][0] == "sub" and kv[1][1] == e and kv[1][2][0] == "const" \
+                        and ("cmp", "isnot", f, ("const", None)) in conjuncts(c.live):
+                    out.append({"event": c, "form": "table", "elem": e, "key": key, "keycol": kv[1][2][1], "loop": d[3][0][0]})
+            continue
         if f[0] != "sub":
             continue
         # loop form: elem(L)[2] with L a statement loop over ADAPTERS
@@ -359,7 +370,8 @@ def adapter_selections(summ, pkg=None):
                 continue
         # table form: {row[i]: row[2] for row in ADAPTERS}[key]  (also over reversed(ADAPTERS): names are distinct)
         d, key = f[1], f[2]
-        if d[0] == "comp" and d[1] == "dict" and len(d[3]) == 1 and d[3][0][1] in (table, ("call", ("builtin", "reversed"), (table,), ())) \
+        if d[0] == "comp" and d[1] == "dict" and len(d[3]) == 1 and d[3][0][1] in (table, ("call", ("builtin", "reversed"), (table,), ()),
+                                                                                   ("sub", table, ("slice", ("const", None), ("const", None), ("const", -1)))) \
                 and not d[3][0][2]:
             e = ("elem", d[3][0][0])
             kv = d[2]
